@@ -1,11 +1,17 @@
 import TbbVerif.Core.Proto
 import TbbVerif.Model.C03
+import TbbVerif.Model.C03Exec
+import TbbVerif.Model.C03Graph
+import TbbVerif.Model.C03Pipe
 
 open TbbVerif
 
 def drivers : List (String × Proto.Driver) := [
   ("c03", C03.driver),
-  ("c03red", C03.rdriver)
+  ("c03red", C03.rdriver),
+  ("c03exec", C03.Exec.driver),
+  ("c03graph", C03.Graph.driver),
+  ("c03pipe", C03.Pipe.driver)
 ]
 
 def main (args : List String) : IO UInt32 := Proto.mainOf drivers args
